@@ -110,6 +110,9 @@ def run(ctx):
             table[k] = table.get(k) or []
     for m in (table.get("missed_sites") or [])[:20]:
         broken.append({"kind": "obligation", "name": "translation incomplete: a field selection of a tracked type produced no table row", "detail": m})
+    if table.get("lock_ops_in_source") != table.get("lock_ops_in_skeletons"):
+        broken.append({"kind": "obligation", "name": "translation incomplete: lock operations in the sources vs in the skeletons",
+                       "detail": "%s in the sources, %s translated" % (table.get("lock_ops_in_source"), table.get("lock_ops_in_skeletons"))})
     for c in table["confinement"]:
         broken.append({"kind": "obligation", "name": "annotation side condition violated", "detail": c})
     table_sites = {(r["file"], r["line"]) for r in table["rows"]}
@@ -267,7 +270,8 @@ def run(ctx):
                              "global_variables": sum(1 for f in {r["field"] for r in table["rows"]} if f.startswith("global:")),
                              "pointer_aliases_followed": table.get("pointer_aliases") or [],
                              "interface_call_edges_added": table.get("interface_call_edges", 0),
-                             "field_selections_without_row": len(table.get("missed_sites") or [])}
+                             "field_selections_without_row": len(table.get("missed_sites") or []),
+                             "lock_ops_in_source": table.get("lock_ops_in_source"), "lock_ops_in_skeletons": table.get("lock_ops_in_skeletons")}
     if lockfacts.get("unjustified_rows") or lockfacts.get("lowered_entries"):
         broken.append({"kind": "obligation", "name": "locksets of the access table not re-derived by the verified analysis of the skeletons",
                        "detail": "unjustified rows: %s; entry locksets lowered by the fixpoint: %s" % (lockfacts.get("unjustified_sites"), lockfacts.get("lowered_entries"))})
